@@ -41,6 +41,13 @@ func (v *V) evalCall(e *Env, call *ast.CallExpr) []Val {
 			}
 		}
 		if isBuiltin {
+			if !e.spec && (id.Name == "delete" || id.Name == "close") {
+				// contract hooks (`at call delete#k: assert ...`) also apply to these effectful builtins
+				v.atStmts(e, call, false, map[string]Val{}, nil)
+				r := v.evalBuiltin(e, id.Name, call)
+				v.atStmts(e, call, true, map[string]Val{}, nil)
+				return r
+			}
 			return v.evalBuiltin(e, id.Name, call)
 		}
 		if e.spec {
@@ -259,7 +266,11 @@ func (v *V) callStatic(e *Env, fn *types.Func, recv *Val, call *ast.CallExpr) []
 		// (an `inline` callee whose contract is in the other integer mode is not inlined: its body
 		// would be translated in the wrong arithmetic; the call is opaque there)
 		args := v.evalArgs(e, sig, call)
-		return v.applyContract(e, fs, fn, recv, args, call)
+		rs := v.applyContract(e, fs, fn, recv, args, call)
+		if !e.spec {
+			v.havocClosureWrites(e, call)
+		}
+		return rs
 	}
 	// in-repo function without contract: inline
 	if fi := v.prog.funcInfoFor(fn); fi != nil && fi.body != nil {
